@@ -158,10 +158,13 @@ def history_items(tier):
     for fl in list(F.flows(2, ("FS", "SS"), (2, 3)))[:: (2 if tier == "quick" else 1)]:
         out.append(F.with_teams(fl, "POOL1"))
         out.append(F.with_teams(fl, "DED"))
+    # three tails with different due times (the backward run with due times attaches helper tasks)
+    sp = F.with_teams({"tasks": [{"name": "T0", "work": 2.0, "due": 6}, {"name": "T1", "work": 1.0, "due": 3}, {"name": "T2", "work": 2.0, "due": 4}], "links": []}, "DED")
+    out.append(sp)
     return out
 
 
-HIST_OPS = ("sim", "sim-abs", "insert", "remove", "back", "init")
+HIST_OPS = ("sim", "sim-abs", "insert", "remove", "back", "back-due", "init")
 
 
 def work_history(chunk):
@@ -189,8 +192,16 @@ def work_history(chunk):
                             tgt.project.remove_absence_time_list()
                         elif op == "back":
                             tgt.project.backward_simulate(max_time=bound)
+                        elif op == "back-due":
+                            tgt.project.backward_simulate(max_time=bound, considering_due_time_of_tail_tasks=True)
                         elif op == "init":
                             tgt.project.initialize()
+                except TimeoutError as e:
+                    # (the harness watchdog: the call did not come back)
+                    exh = runner.Exec(sp, {"max_time": bound, "history": list(hist), "history_on_same_project": on_b})
+                    exh.m = tgt
+                    col.violation(dict(M.V("C05", "C05:call-did-not-return:%s" % op, exh, {"history": list(hist), "error": repr(e)}), kind="history"))
+                    continue
                 except Exception:
                     col.aborted["history-op-raised"] += 1
                     continue
@@ -285,6 +296,7 @@ def run(tier, seed):
     rs = stepcheck.restarted_items([it for it in fe if it[1]["rule"] == "TSLACK"][:: (6 if tier == "quick" else 2)], ks=(1, 2, 3))
     colb.merge(stepcheck.explore(rs, [mon_feasible], 0, 0, seed=seed))
     rb = [(sp, dict(o, resume_from=k, resume_via_json=how)) for sp, o in [it for it in fe if it[1]["rule"] == "TSLACK"][:: (9 if tier == "quick" else 3)] for k in (1, 2) for how in (True, "same")]
+    rb += [(sp, dict(o, rule=r, resume_from=1, resume_via_json=True)) for sp, o in [it for it in fe if it[1]["rule"] == "TSLACK"][:: (13 if tier == "quick" else 4)] for r in ("LWRPT", "SWRPT", "FIFO")]
     colb.merge(stepcheck.explore(rb, [mon_feasible], 0, 0, seed=seed))  # a checkpoint read back (new object / same object) before the run goes on
     colb.merge(engines.fanout(history_items(tier), work_history, seed=seed))
     sc = [(sp, dict(o, max_time=o["max_time"] + 30)) for sp, o in F.scale_items(("TSLACK", "SPT")) if sp["label"] in ("scale:wide12", "scale:wide12-6workers", "scale:layers3x4", "scale:seven-predecessors", "scale:8components", "scale:ten-predecessors", "scale:nine-successors",
